@@ -59,6 +59,19 @@ pub mod verif {
         )
         .verif_force(is_tty, refresh))
     }
+
+    /// `operator::split::split_with_delimiters` with the default quote delimiters (the
+    /// function behind the `split` operator; its module is crate-private).
+    pub fn verif_split(input: &str, sep: &str) -> Vec<String> {
+        crate::operator::split::split_with_delimiters(
+            input,
+            sep,
+            &crate::operator::split::DEFAULT_DELIMITERS,
+        )
+        .into_iter()
+        .map(|t| t.to_string())
+        .collect()
+    }
 }
 
 pub mod pipeline {
